@@ -228,7 +228,7 @@ def p3_creators(chk):
 
 
 # ----------------------------------------------------------------------------- bounded
-BODIES = ["''x''", "[[L]]", "{{t}}", "{{{1}}}", "<b>b</b>", "<!-- c -->", "* i", "== h ==", "{|\n| c\n|}", "&amp;", " a  b ", "\n\n", "|", "~~~~", "<ref>r</ref>"]
+BODIES = ["&lt;nowiki&gt;[[L]]&lt;/nowiki&gt;", "''x''", "[[L]]", "{{t}}", "{{{1}}}", "<b>b</b>", "<!-- c -->", "* i", "== h ==", "{|\n| c\n|}", "&amp;", " a  b ", "\n\n", "|", "~~~~", "<ref>r</ref>"]
 CONTEXTS = {"top": "X {} Y", "list": "* a {} b", "cell": "{{|\n| {} \n|}}", "bold": "'''b {} b'''", "arg": "{{{{T|{}}}}}"}
 
 
@@ -274,6 +274,28 @@ def bounded(chk):
                 break
         if fails:
             break
+    # two protected regions on one page: a nowiki whose body spells another opaque tag, next to a real one
+    if not fails:
+        for tag, body in (("math", "x^2"), ("pre", "a ''b''"), ("source", "int x;"), ("timeline", "t")):
+            real = f"<{tag}>{body}</{tag}>"
+            for text in (f"<nowiki>{real}</nowiki> and {real}", f"{real} and <nowiki>{real}</nowiki>"):
+                n += 1
+                try:
+                    tree = docs.parse(text)
+                except Exception as e:  # noqa: BLE001
+                    fails.append({"detail": f"{text!r}: raised {type(e).__name__}", "witness": {"wikitext": text}, "class": "raise"})
+                    break
+                got = collect_text(tree)
+                kinds = [c.__class__.__name__ for c in tree.allchildren()]
+                literal_ok = real in got
+                node_ok = {"math": "Math" in kinds, "timeline": "Timeline" in kinds,
+                           "pre": "PreFormatted" in kinds, "source": any(k in ("Source", "TagNode") for k in kinds)}[tag]
+                if not (literal_ok and node_ok):
+                    fails.append({"detail": f"{text!r}: nowiki body literal in tree: {literal_ok}; real <{tag}> node present: {node_ok}",
+                                  "witness": {"wikitext": text}, "class": f"two-regions:{tag}"})
+                    break
+            if fails:
+                break
     chk.bounded_result("opaque_bodies_in_contexts", n, n, True,
                        f"{len(bodies)} bodies (markup lexemes and pairs) x 5 opaque tags x 5 embedding contexts through parse_string with a template-bearing wikidb; contract: body verbatim (entity-decoded for nowiki/pre) in a Text/Math/Timeline leaf",
                        fails[:1])
